@@ -128,6 +128,41 @@ theorem new_glob_prefix (src : Source) (line : Str) (hc : currentDir src ≠ [])
   apply transform_prefix _ _ _ _ hc
   exact relDir_cases _ _
 
+theorem currentDir_head (src : Source) : currentDir src = [] ∨ ∃ r, currentDir src = '/' :: r := by
+  cases src with
+  | global => exact Or.inl rfl
+  | file parent =>
+    have hp : ∃ r, (if parent.head? = some '/' then parent else '/' :: parent) = '/' :: r := by
+      by_cases h : parent.head? = some '/'
+      · cases parent with
+        | nil => simp at h
+        | cons c r => simp only [List.head?_cons, Option.some.injEq] at h; subst h; exact ⟨r, by simp⟩
+      · exact ⟨parent, by simp [h]⟩
+    obtain ⟨r, hr⟩ := hp
+    unfold currentDir
+    simp only [hr]
+    split
+    · cases r with
+      | nil => left; rfl
+      | cons c r => right; exact ⟨(c :: r).dropLast, by simp [List.dropLast]⟩
+    · right; exact ⟨r, rfl⟩
+
+theorem transform_head (line cur : Str) (rd : Option Str) (ds : Bool)
+    (hc : cur = [] ∨ ∃ r, cur = '/' :: r) (hrd : rd = none ∨ rd = some cur) :
+    ∃ c rest, transformPatternForGlob line cur rd ds = c :: rest ∧ (c = '*' ∨ c = '/') := by
+  have e1 : "/**/".toList = ['/', '*', '*', '/'] := by decide
+  have e2 : "**/".toList = ['*', '*', '/'] := by decide
+  rcases hc with rfl | ⟨r, rfl⟩ <;> rcases hrd with h | h <;> subst h <;> cases ds <;>
+    simp only [transformPatternForGlob, e1, e2, List.isEmpty_nil, List.isEmpty_cons, if_true, Bool.false_eq_true, if_false,
+      List.nil_append, List.cons_append] <;>
+    exact ⟨_, _, rfl, by simp⟩
+
+theorem new_glob_head (src : Source) (line : Str) :
+    ∃ c rest, (Pattern.new src line).glob = c :: rest ∧ (c = '*' ∨ c = '/') := by
+  unfold Pattern.new
+  simp only []
+  exact transform_head _ _ _ _ (currentDir_head src) (relDir_cases _ _)
+
 theorem new_confined (src : Source) (line : Str) (hd : PlainDir (currentDir src)) :
     Confined (currentDir src) (Pattern.new src line) := by
   intro p hm
